@@ -3,6 +3,7 @@
 package c04
 
 import (
+	"bytes"
 	"context"
 	"crypto/sha256"
 	"encoding/json"
@@ -68,6 +69,12 @@ func cases(run *vf.Run) ([]json.RawMessage, error) {
 	out = append(out, vf.Spec(spec{Kind: "demo-F2", Seed: 102, Cfg: base}))
 	out = append(out, vf.Spec(spec{Kind: "demo-F3", Seed: 103, Cfg: base}))
 	out = append(out, vf.Spec(spec{Kind: "demo-F19", Seed: 119, Cfg: base}))
+	out = append(out, vf.Spec(spec{Kind: "demo-F36", Seed: 136, Cfg: base}))
+	for i, ps := range []int{4096, 1024, 16384} {
+		c := base
+		c.PageSize = ps
+		out = append(out, vf.Spec(spec{Kind: "aligned-db-wal-rollback", Seed: 137 + int64(i), Cfg: c}))
+	}
 	// directed shape: k whole WAL generations written and checkpointed unseen while litestream
 	// is down, each shorter than the one before (only the salts tell them apart)
 	nShape := 6
@@ -105,14 +112,20 @@ func cases(run *vf.Run) ([]json.RawMessage, error) {
 
 type world struct {
 	*hist.Env
-	s       spec
-	dmn     *hist.Daemon
-	rng     *rand.Rand
-	res     *vf.Result
-	l0Hash  map[int][32]byte // content hash of every level-0 file seen on the replica
-	shapes  []string
-	lostLoc bool
-	offCommits int
+	// identicalAtCursor: after the database and its WAL were rolled back and the WAL regrew,
+	// the frame in front of litestream's old cursor carries the same page number and the same
+	// page image as the frame litestream had copied there, although earlier frames differ
+	// (witness predicate of the listed finding F36; computed from the two WAL files)
+	identicalAtCursor bool
+	rollbackMode      string // "" (PRNG) | aligned | identical
+	s                 spec
+	dmn               *hist.Daemon
+	rng               *rand.Rand
+	res               *vf.Result
+	l0Hash            map[int][32]byte // content hash of every level-0 file seen on the replica
+	shapes            []string
+	lostLoc           bool
+	offCommits        int
 	// snapAhead: at a moment local LTX state was lost, the replica held a file at
 	// level>=1 whose MaxTXID exceeded its highest level-0 TXID (known finding F19)
 	snapAhead bool
@@ -162,6 +175,9 @@ func (w *world) noteLocalStateLost() {
 func (w *world) suffix() string {
 	if w.snapAhead {
 		return ":snapshot-ahead-of-l0-at-reset"
+	}
+	if w.identicalAtCursor {
+		return ":identical-page-image-at-cursor-after-db-wal-rollback"
 	}
 	return ""
 }
@@ -327,6 +343,39 @@ func (w *world) writeTable(tbl string) (bool, error) {
 	}
 	w.K++
 	w.Logf("offline app write %s -> k=%d", tbl, w.K)
+	return true, w.Record()
+}
+
+// updateFixed is a transaction of constant shape: the first row of tbl gets a new value of
+// the same length, the ledger is bumped. Every such transaction writes the same pages, so
+// two timelines of the same WAL generation put the same page numbers into the same frames.
+func (w *world) updateFixed(tbl string) (bool, error) {
+	tx, err := w.W.Begin()
+	if err != nil {
+		return false, nil
+	}
+	b := make([]byte, 64)
+	w.rng.Read(b)
+	if w.rollbackMode == "identical" {
+		// the value is a function of the ledger counter: an application that redoes the same
+		// work after the rollback writes the same bytes again
+		for i := range b {
+			b[i] = byte(w.K + 1)
+		}
+	}
+	_, ex := tx.Exec(`UPDATE `+tbl+` SET v=? WHERE id=(SELECT min(id) FROM `+tbl+`)`, b)
+	if ex == nil {
+		_, ex = tx.Exec(`UPDATE ledger SET k=?`, w.K+1)
+	}
+	if ex != nil {
+		_ = tx.Rollback()
+		return false, nil
+	}
+	if err := tx.Commit(); err != nil {
+		return false, nil
+	}
+	w.K++
+	w.Logf("offline app fixed-shape update %s -> k=%d", tbl, w.K)
 	return true, w.Record()
 }
 
@@ -675,8 +724,42 @@ func (w *world) rollbackDBWAL() error {
 	walKept := sq.CopyFile(w.DBPath+"-wal", filepath.Join(snap, "db-wal")) == nil
 	kSnap := w.K
 	// replication moves on in the same WAL generation
-	for i := 0; i < 1+w.rng.Intn(4); i++ {
-		if _, err := w.writeTable("t0"); err != nil {
+	moved := 1 + w.rng.Intn(4)
+	aligned := w.rng.Intn(2) == 0
+	if w.rollbackMode != "" {
+		aligned = true
+	}
+	if aligned && moved < 2 {
+		moved = 2
+	}
+	if aligned {
+		// make sure the rows the fixed-shape updates touch exist before the copy is taken
+		for _, t := range []string{"t0", "t1"} {
+			if _, err := w.W.Exec(`INSERT INTO ` + t + `(v) SELECT zeroblob(64) WHERE NOT EXISTS (SELECT 1 FROM ` + t + `)`); err != nil {
+				return err
+			}
+		}
+		if err := w.LS.SyncAndWait(ctx); err != nil {
+			w.Logf("SyncAndWait err=%v", err)
+		}
+		_ = os.Remove(filepath.Join(snap, "db"))
+		if err := sq.CopyFile(w.DBPath, filepath.Join(snap, "db")); err != nil {
+			return err
+		}
+		walKept = sq.CopyFile(w.DBPath+"-wal", filepath.Join(snap, "db-wal")) == nil
+		if err := w.Record(); err != nil {
+			return err
+		}
+		kSnap = w.K
+	}
+	for i := 0; i < moved; i++ {
+		var err error
+		if aligned {
+			_, err = w.updateFixed("t0")
+		} else {
+			_, err = w.writeTable("t0")
+		}
+		if err != nil {
 			return err
 		}
 		if w.rng.Intn(2) == 0 {
@@ -689,6 +772,7 @@ func (w *world) rollbackDBWAL() error {
 	if err := w.closeLS(); err != nil {
 		return fmt.Errorf("close: %w", err)
 	}
+	oldWAL, _ := os.ReadFile(w.DBPath + "-wal") // the timeline litestream has copied completely
 	w.CloseApp()
 	os.Remove(w.DBPath + "-wal")
 	os.Remove(w.DBPath + "-shm")
@@ -709,13 +793,69 @@ func (w *world) rollbackDBWAL() error {
 		return err
 	}
 	w.offCommits++
-	for i := w.rng.Intn(5); i > 0; i-- {
-		ok, err := w.writeTable([]string{"t2", "t0", "t1"}[w.rng.Intn(3)])
-		if err != nil {
+	if aligned {
+		// the new timeline: one fixed-shape update of ANOTHER table first, then the same
+		// fixed-shape updates of t0 again (other content): the WAL regrows past litestream's
+		// old cursor with the same page numbers in the same frames - only the page images,
+		// and the transaction below the cursor, differ
+		if ok, err := w.updateFixed("t1"); err != nil {
 			return err
-		}
-		if ok {
+		} else if ok {
 			w.offCommits++
+		}
+		if w.rollbackMode == "identical" {
+			// the same fixed-shape updates of t0 as before: the ledger page in front of the
+			// old cursor ends up with the very same image (it only holds the counter)
+			for i := 0; i < moved; i++ {
+				if ok, err := w.updateFixed("t0"); err != nil {
+					return err
+				} else if ok {
+					w.offCommits++
+				}
+			}
+		} else {
+			// ledger-only transactions (one frame each) up to the old cursor: the frame in
+			// front of it is the ledger page again, with another counter value
+			for i := 0; i < 2*moved-2; i++ {
+				if _, err := w.W.Exec(`UPDATE ledger SET k=k+1`); err != nil {
+					return err
+				}
+				w.K++
+				if err := w.Record(); err != nil {
+					return err
+				}
+				w.offCommits++
+			}
+			if ok, err := w.updateFixed("t0"); err != nil {
+				return err
+			} else if ok {
+				w.offCommits++
+			}
+		}
+		// witness predicate of F36
+		if newWAL, err := os.ReadFile(w.DBPath + "-wal"); err == nil && len(oldWAL) > 32 && len(newWAL) >= len(oldWAL) {
+			fs := w.Cfg.PageSize + 24
+			a, b := oldWAL[len(oldWAL)-fs:], newWAL[len(oldWAL)-fs:len(oldWAL)]
+			samePg := bytes.Equal(a[:4], b[:4])
+			sameImg := bytes.Equal(a[24:], b[24:])
+			differsBefore := !bytes.Equal(oldWAL[32:len(oldWAL)-fs], newWAL[32:len(oldWAL)-fs])
+			w.Logf("frame in front of the old cursor (offset %d): same page number=%v same page image=%v earlier frames differ=%v", len(oldWAL), samePg, sameImg, differsBefore)
+			if samePg && sameImg && differsBefore {
+				w.identicalAtCursor = true
+				w.Res.Count("db_wal_rollback_identical_image_at_cursor", 1)
+			} else if samePg && differsBefore {
+				w.Res.Count("db_wal_rollback_same_page_other_image_at_cursor", 1)
+			}
+		}
+	} else {
+		for i := w.rng.Intn(5); i > 0; i-- {
+			ok, err := w.writeTable([]string{"t2", "t0", "t1"}[w.rng.Intn(3)])
+			if err != nil {
+				return err
+			}
+			if ok {
+				w.offCommits++
+			}
 		}
 	}
 	return w.restartNewObject()
@@ -774,6 +914,18 @@ func runCase(run *vf.Run, raw json.RawMessage, dir string) *vf.Result {
 	herr := func(err error) *vf.Result { res.HarnessErr = err.Error(); return res }
 
 	switch s.Kind {
+	case "demo-F36":
+		w.rollbackMode = "identical"
+		if err := w.rollbackDBWAL(); err != nil {
+			return herr(err)
+		}
+		w.ackCheck("after disturbance (db-wal-rolled-back, identical page image at the cursor)", 0)
+	case "aligned-db-wal-rollback":
+		w.rollbackMode = "aligned"
+		if err := w.rollbackDBWAL(); err != nil {
+			return herr(err)
+		}
+		w.ackCheck("after disturbance (db-wal-rolled-back, same page number at the cursor)", 0)
 	case "demo-F1", "demo-F2", "demo-F3", "demo-F19":
 		if v := runDemo(w, s.Kind); v != nil {
 			return herr(v)
